@@ -237,6 +237,29 @@ fn test(c: &Case, st: &mut Stats) -> TestResult {
                     );
                 }
             }
+            // the one built-in value with a mutator: every path must follow each mutation, also when
+            // the value (or a copy of it) has already been converted or written before
+            if let refattrs::Typed::UnknownAttributes(u0) = &typed {
+                let mut u = u0.clone();
+                let mut x = (*tid as u64) | 1;
+                for round in 0..3u32 {
+                    let before = guard(|| u.to_raw().value.to_vec()).map_err(|p| Fail::new("c12-panic", format!("to_raw panicked: {}", p)))?;
+                    x ^= x << 13;
+                    x ^= x >> 7;
+                    x ^= x << 17;
+                    let t = if round == 1 && before.len() >= 2 { u16::from_be_bytes([before[0], before[1]]) } else { 0x7000 + (x % 0x800) as u16 };
+                    let had = u.has_attribute(AttributeType::new(t));
+                    u.add_attribute(AttributeType::new(t));
+                    let mut want = before.clone();
+                    if !had {
+                        want.extend_from_slice(&t.to_be_bytes());
+                    }
+                    check_attr(&u, &format!("UnknownAttributes after to_raw() and add_attribute({:#06x})", t), ty, &want)?;
+                    let copy = u.clone();
+                    check_attr(&copy, &format!("clone of UnknownAttributes after to_raw() and add_attribute({:#06x})", t), ty, &want)?;
+                }
+                st.class("UNKNOWN-ATTRIBUTES extended after it was serialised");
+            }
             st.class(&format!("attr {:?}", kind));
             if value.len() > 763 {
                 st.class("constructible value beyond the decoder's limit");
